@@ -55,12 +55,14 @@ def random_run_config(rng, P):
         transfers.append(dict(Rc=Rc, Pc=Pc, Rs=eye, Ps=eye))
     pred = rng.choice([None, 'fine_only', 'pfasst_burnin']) if NL > 1 else None
     r = rng.random()
-    if r < 0.25:
+    if r < 0.2:
         levels[0]['collupdate'] = True  # quadrature end point with w = last row of Q: same value at the fixed point
-    elif r < 0.5 and NL == 1:
+    elif r < 0.65 and NL == 1:
         # right end of the interval is not a node: the end value is u0 + dt * sum_j w_j f(u_j) with weights of their own
         levels[0]['rightnode'] = False
         levels[0]['w'] = [z() for _ in range(levels[0]['M'])]
+        # ... with or without the LEFT end as a node (RADAU-LEFT / GAUSS): the end-value rule is the same
+        levels[0]['leftnode'] = rng.random() < 0.5
     return dict(P=P, kind=kind, NP=NP, NL=NL, levels=levels, transfers=transfers, pred=pred, jac=rng.choice([True, False]),
                 nsweeps=[rng.choice([1, 2]) for _ in range(NL - 1)] + [1], nsteps=rng.choice([NP, NP + 1, 2 * NP]),
                 u_init=[z() for _ in range(n)], maxiter=40)
